@@ -455,3 +455,20 @@ VALIDATE2 = (
 VECTORS += [
     ("histgrid.width", _XY + "histogram {\n  name h\n  colvars x y\n  histogramGrid {\n    width {V}\n    lowerBoundary 0 0\n    upperBoundary 4 4\n  }\n}\n", True, "pos"),
 ]
+
+
+# ------------------------------------------------------------------------------------------------
+# valid configurations with schedules on frequencies that are not powers of two (large absolute step numbers)
+# ------------------------------------------------------------------------------------------------
+BIGSTEP = [
+    ("module", "colvarsTrajFrequency 3\ncolvarsRestartFrequency 5\n" + cv("x", 1, GRIDCV)),
+    ("colvar-runave-corr", cv("x", 1, GRIDCV + "  runAve on\n  runAveLength 3\n  runAveStride 3\n  corrFunc on\n  corrFuncLength 3\n  corrFuncStride 3\n  corrFuncWithColvar x\n")),
+    ("colvar-tsf", cv("x", 1, GRIDCV + "  timeStepFactor 3\n") + "harmonic {\n  name r\n  colvars x\n  centers 1.0\n  forceConstant 2.0\n  timeStepFactor 3\n}\n"),
+    ("harmonic-moving", cv("x", 1, GRIDCV) + "harmonic {\n  name r\n  colvars x\n  centers 1.0\n  forceConstant 2.0\n  targetCenters 2.0\n  targetNumSteps 12\n  targetNumStages 3\n  outputFreq 7\n}\n"),
+    ("harmonic-moving-work", cv("x", 1, GRIDCV) + "harmonic {\n  name r\n  colvars x\n  centers 1.0\n  forceConstant 2.0\n  targetCenters 2.0\n  targetNumSteps 12\n  outputFreq 7\n  outputAccumulatedWork on\n}\n"),
+    ("metadynamics", cv("x", 1, GRIDCV) + "metadynamics {\n  name m\n  colvars x\n  hillWeight 0.1\n  hillWidth 2\n  newHillFrequency 3\n  gridsUpdateFrequency 6\n  outputFreq 5\n}\n"),
+    ("abf", cv("x", 1, GRIDCV, "    oneSiteTotalForce on\n") + "abf {\n  name a\n  colvars x\n  fullSamples 2\n  outputFreq 5\n  historyFreq 5\n}\n"),
+    ("histogram", cv("x", 1, GRIDCV) + "histogram {\n  name h\n  colvars x\n  outputFreq 7\n}\n"),
+    ("opes", cv("x", 1, GRIDCV) + "opes_metad {\n  name o\n  colvars x\n  newHillFrequency 3\n  barrier 10\n  gaussianSigma 0.5\n  outputFreq 5\n}\n"),
+    ("alb", cv("x", 1) + "alb {\n  name b\n  colvars x\n  centers 1\n  UpdateFrequency 6\n}\n"),
+]
